@@ -38,6 +38,7 @@ def body(c):
     traces, meta = pfamily.explore(S, seed=c.seed, workers=12)
     pfamily.account(c, traces, meta)
     pfamily.validate(c, traces, meta, "C01")
+    pfamily.validator_sensitivity(c, traces)        # binding demonstration: corrupted recordings must be rejected
     pfamily.protocol(c, meta, "C01")
     S2 = pscen.l2("C01", c.quick)
     t2, m2 = pfamily.explore_l2(S2, seed=c.seed, workers=12)
